@@ -89,7 +89,25 @@ def make_plugin(kind, hooks, idx, log, raise_at=None, exc="Boom"):
         return fn
     for h in hooks:
         ns[h] = mk(h)
-    return type("P%d" % idx, base, ns)()
+    # where the hook methods live does not matter: on the plugin's class, on a base class of it, on a mixin, or
+    # on the instance
+    _STYLE[0] += 1
+    style = _STYLE[0] % 4
+    if style == 0 or not ns:
+        return type("P%d" % idx, base, ns)()
+    if style == 1:
+        return type("P%d" % idx, (type("Base%d" % idx, base, ns),), {})()
+    if style == 2:
+        names = sorted(ns)
+        mixin = type("Mixin%d" % idx, (object,), {n: ns[n] for n in names[::2]})
+        return type("P%d" % idx, (mixin,) + base, {n: ns[n] for n in names[1::2]})()
+    inst = type("P%d" % idx, base, {})()
+    for n, fn in ns.items():
+        setattr(inst, n, fn.__get__(inst))
+    return inst
+
+
+_STYLE = [0]
 
 
 def plugin_specs(ctx):
